@@ -67,7 +67,7 @@ def prove_eq(hyps, lhs, rhs, timeout_ms=20000, depth=0):
     if not _has_sum(diff):
         return r
     # congruence descent: f(a..) == f(b..) follows from a == b (sufficient)
-    if lhs.op == rhs.op and lhs.op in ('app', 'div', 'neg', 'toreal', 'abs', 'pow', 'max', 'min') and len(lhs.args) == len(rhs.args):
+    if lhs.op == rhs.op and lhs.op in ('app', 'div', 'neg', 'toreal', 'abs', 'pow', 'max', 'min', 'mul', 'add', 'ite') and len(lhs.args) == len(rhs.args):
         pairs = [(a, b) for a, b in zip(lhs.args, rhs.args)]
         if all((isinstance(a, T) and isinstance(b, T)) or a == b for a, b in pairs):
             ok = True
